@@ -16,6 +16,7 @@ import world
 class StepWorld(object):
     def __init__(self, max_steps=2000000):
         assert vsched.CURRENT is None
+        world.HASH_SALT[0] = 0
         world.reset_library_globals()
         self.s = vsched.Scheduler((), (), "exact", max_steps, 1e9, True)
         self._old_hook = sys.unraisablehook
